@@ -15,6 +15,7 @@ broadcast use str_axioms::axiom_str_eq_is_view_eq;
 verus! {
 //@include units/spec_lookups.inc
 //@include units/spec_lines.inc
+//@include units/spec_destruct.inc
 //@include units/spec_enum.inc
 
 // =====================================================================================================
@@ -133,6 +134,40 @@ spec fn enum_fields<'a>(input: &'a Enum<'a>, ctx: ImplContext<'a>) -> Seq<Varian
         enum_items_pre(refs(enum_fields(input, *ctx)), *ctx), // #every-rendered-variant-has-a-defined-arm [C16]
     ensures
         r@ =~= brace(flat(enum_arms(refs(enum_fields(input, *ctx)), *ctx)) + flat(default_arm(input, *ctx))), // #own-variants-then-applicable-ghosts
+//@end
+
+
+// ---------------------------------------------------------------- variant_destruct_block (C02 C06 C16)
+//@assume U2 attr.rs MemberAttrs::applicable_attr
+//@assume U5 attr.rs GhostIdent::get_ident
+//@assume U5 expand.rs ApplicableAttr::get_field_name_or
+
+spec fn ghosts_named<'a>(sv: SView, ctx: CView) -> bool {
+    k_is_from(ctx.kind) ==> (match first_ghosts(sv.attrs.ghosts_attrs, ctx.sa.ty, ctx.kind) {
+        Some(g) => forall|i: int| 0 <= i < g.ghost_data.pseq().len() ==> #[trigger] g.ghost_data.pseq()[i].ghost_ident is Member,
+        None => true,
+    })
+}
+
+//@fn expand.rs variant_destruct_block
+//@props C02,C06,C16
+//@uses flat_lemmas::group_flat, flat_lemmas::group_seq
+//@spec
+    requires
+        ghosts_named(sview(*input), cview(*ctx)), // #payload-ghosts-name-a-member [C16]
+        forall|i: int| 0 <= i < input.fields@.len() ==> (#[trigger] input.fields@[i]).idx <= u32::MAX,
+    ensures
+        r@ =~= spec_variant_destruct(sview(*input), cview(*ctx)), // #payload-pattern
+//@closure 0
+    |x: &&Field| -> (r: bool) ensures r == q_bound(cview(*ctx))(*x)
+//@closure 1
+    |x: &Field| -> (r: TokenStream) requires q_bound(cview(*ctx))(x) ensures r@ =~= field_binding(x, TypeHint::Struct, cview(*ctx))
+//@closure 2
+    |x: &&Field| -> (r: bool) ensures r == q_bound(cview(*ctx))(*x)
+//@closure 3
+    |x: &Field| -> (r: TokenStream) ensures r@ =~= field_binding(x, TypeHint::Tuple, cview(*ctx))
+//@closure 4
+    |x: &GhostData| -> (r: TokenStream) requires x.ghost_ident is Member ensures r@ =~= ghost_binding()(x)
 //@end
 
 } // verus!
